@@ -182,6 +182,25 @@ CHECKS["C19"] = (
     "DESIGN.md §3 C19",
 )
 
+CHECKS["C15"] = (
+    "model_checking",
+    "deviation-bounded exhaustive exploration of the random environment of the real MCMC.run (stateless, replay-based), with per-transition MH oracle",
+    "Every random draw of the real MCMC.run (operator pick, proposal uniforms / indices / normals / Dirichlet "
+    "draws, momentum, acceptance uniform) is replaced by a choice point with a small ordered menu; all "
+    "executions with at most d non-default answers over T iterations (operator picks free; (d,T)=(2,3) on the "
+    "toy and HKY targets, (1,7) on HMC with mass-matrix and step-size adaptors, (1,2..3) on the CLI-generated "
+    "skygrid/GMRF block-update and phylogenetic HMC set-ups; thorough one level deeper) are run with "
+    "adaptation on and off. On every transition the record reconstructed from outside (wrapped operators, "
+    "joint proxy, integrator proxy, scripted draws, captured logger rows) is checked: density used for the "
+    "proposal = target of a freshly built graph; accept iff u < min(1, exp(delta + H)) with from-scratch "
+    "densities; H = independent log proposal ratio (scaler, window, Dirichlet, HMC kinetic energies under the "
+    "current mass matrix); rejection restores bit-identical values; logged rows are self-consistent; tuning "
+    "moves in the right direction. Each recorded schedule is replayed twice (determinism) and the global torch "
+    "generator must stay untouched.",
+    "Menus of 3-5 values per draw; GMRF block-update Hastings ratio taken as returned; end-of-run summary division by zero for never-picked operators is outside the property.",
+    "DESIGN.md §3 C15",
+)
+
 NOT_APPLICABLE = {}
 
 PENDING_REASON = ("check not built yet in this revision (planned in DESIGN.md §3); "
